@@ -89,26 +89,34 @@ theorem annotatedDir_none (a : Anns) (h0 : a.inout = none) (h1 : a.out = none) (
     annotatedDir a = none := by
   simp [annotatedDir, h0, h1, h2]
 
-/-- after the step the node has the annotated direction, whatever it was before -/
-theorem dirStep_dir (n : Node) (a : Anns) (t : Ty) (d : Dir) (h : annotatedDir a = some d) :
+/-- after the step a PARAMETER has the annotated direction, whatever it was before -/
+theorem dirStep_dir (n : Node) (a : Anns) (t : Ty) (d : Dir) (hr : n.isRet = false) (h : annotatedDir a = some d) :
     (dirStep n a t).dir = d := by
   unfold dirStep
   rw [h]
   by_cases hd : d = n.dir
-  · simp [hd]
-  · simp [hd]
+  · simp [hd, hr]
+  · simp [hd, hr]
 
 theorem dirStep_none (n : Node) (a : Anns) (t : Ty) (h : annotatedDir a = none) :
     dirStep n a t = ⟨n.dir, n.callerAllocates, n.transfer⟩ := by
   unfold dirStep
   rw [h]
+  simp
+
+/-- direction annotations never touch a return value -/
+theorem dirStep_ret (n : Node) (a : Anns) (t : Ty) (hr : n.isRet = true) :
+    dirStep n a t = ⟨n.dir, n.callerAllocates, n.transfer⟩ := by
+  unfold dirStep
+  simp [hr]
 
 /-- when the direction really changes, caller-allocates is what the (out) option says -/
-theorem dirStep_ca (n : Node) (a : Anns) (t : Ty) (d : Dir) (h : annotatedDir a = some d) (hne : d ≠ n.dir) :
+theorem dirStep_ca (n : Node) (a : Anns) (t : Ty) (d : Dir) (hr : n.isRet = false) (h : annotatedDir a = some d)
+    (hne : d ≠ n.dir) :
     (dirStep n a t).ca = outCallerAllocates a t := by
   unfold dirStep
   rw [h]
-  simp [hne]
+  simp [hne, hr]
 
 theorem outCallerAllocates_caller (a : Anns) (t : Ty) (rest : List Str) (h0 : a.inout = none)
     (h : a.out = some (G Gen.ParamAnn.optOutCallerAllocates :: rest)) : outCallerAllocates a t = true := by
@@ -196,13 +204,18 @@ theorem validate_transfer_unknown (m : Str) (h : knownTransfer m = false) :
 
 /-! ### nullability -/
 
-/-- `(not ...)` is the final override -/
-theorem nullPure_not (part : Str) (n : Node) (a : Anns) (dir : Dir) (ty : Ty) (p : Bool) (h : a.not_.isSome = true) :
+/-- `(not nullable)` (any `(not ...)` that is not `(not optional)`) is the final override of nullable -/
+theorem nullPure_not (part : Str) (n : Node) (a : Anns) (dir : Dir) (ty : Ty) (p : Bool) (h : notNullableAnn a = true) :
     (nullPure part n a dir ty p).nullable = false ∧ (nullPure part n a dir ty p).notNullable = true := by
   simp [nullPure, h]
 
+/-- `(not optional)` is the final override of optional -/
+theorem nullPure_notOptional (part : Str) (n : Node) (a : Anns) (dir : Dir) (ty : Ty) (p : Bool)
+    (h : notOptionalAnn a = true) : (nullPure part n a dir ty p).optional = false := by
+  simp [nullPure, h]
+
 theorem nullPure_nullable_valid (part : Str) (n : Node) (a : Anns) (dir : Dir) (ty : Ty)
-    (h : a.nullable.isSome = true) (hn : a.not_ = none) :
+    (h : a.nullable.isSome = true) (hn : notNullableAnn a = false) :
     (nullPure part n a dir ty true).nullable = true ∧ (nullPure part n a dir ty true).notNullable = false := by
   obtain ⟨o, ho⟩ := Option.isSome_iff_exists.mp h
   cases ha : a.allowNone <;> simp [nullPure, ho, hn, ha] <;> (try split) <;> simp_all
@@ -216,13 +229,13 @@ theorem nullPure_nullable_invalid (part : Str) (n : Node) (a : Anns) (dir : Dir)
     (nullPure part n a dir ty false).notNullable = (nullPure part n { a with nullable := none } dir ty false).notNullable ∧
     (nullPure part n a dir ty false).optional = (nullPure part n { a with nullable := none } dir ty false).optional := by
   obtain ⟨o, ho⟩ := Option.isSome_iff_exists.mp h
-  simp [nullPure, ho]
+  simp [nullPure, ho, notNullableAnn, notOptionalAnn]
 
 theorem nullPure_optional_valid (part : Str) (n : Node) (a : Anns) (dir : Dir) (ty : Ty) (p : Bool)
-    (h : a.optional.isSome = true) (hr : n.isRet = false) (hd : isOutish dir = true) :
+    (h : a.optional.isSome = true) (hr : n.isRet = false) (hd : isOutish dir = true) (hno : notOptionalAnn a = false) :
     (nullPure part n a dir ty p).optional = true := by
   obtain ⟨o, ho⟩ := Option.isSome_iff_exists.mp h
-  cases ha : a.allowNone <;> simp [nullPure, ho, hr, hd, ha]
+  cases ha : a.allowNone <;> simp [nullPure, ho, hr, hd, ha, hno]
   (repeat' split) <;> simp
 
 theorem nullPure_optional_invalid (part : Str) (n : Node) (a : Anns) (dir : Dir) (ty : Ty) (p : Bool)
@@ -231,17 +244,17 @@ theorem nullPure_optional_invalid (part : Str) (n : Node) (a : Anns) (dir : Dir)
     (nullPure part n a dir ty p).optional = (nullPure part n { a with optional := none } dir ty p).optional ∧
     (nullPure part n a dir ty p).nullable = (nullPure part n { a with optional := none } dir ty p).nullable := by
   obtain ⟨o, ho⟩ := Option.isSome_iff_exists.mp h
-  simp [nullPure, ho, hbad]
+  simp [nullPure, ho, hbad, notNullableAnn, notOptionalAnn]
 
 /-- `(allow-none)` on an out parameter means optional -/
 theorem nullPure_allowNone_out (part : Str) (n : Node) (a : Anns) (ty : Ty) (p : Bool)
-    (h : a.allowNone.isSome = true) (hr : n.isRet = false) :
+    (h : a.allowNone.isSome = true) (hr : n.isRet = false) (hno : notOptionalAnn a = false) :
     (nullPure part n a .out ty p).optional = true := by
   obtain ⟨o, ho⟩ := Option.isSome_iff_exists.mp h
-  simp [nullPure, ho, hr]
+  simp [nullPure, ho, hr, hno]
 
 theorem nullPure_allowNone_pointer (part : Str) (n : Node) (a : Anns) (dir : Dir) (ty : Ty)
-    (h : a.allowNone.isSome = true) (hd : (dir == .out && !n.isRet) = false) (hn : a.not_ = none) :
+    (h : a.allowNone.isSome = true) (hd : (dir == .out && !n.isRet) = false) (hn : notNullableAnn a = false) :
     (nullPure part n a dir ty true).nullable = true := by
   obtain ⟨o, ho⟩ := Option.isSome_iff_exists.mp h
   simp [nullPure, ho, hd, hn]
@@ -252,11 +265,11 @@ theorem nullPure_allowNone_invalid (part : Str) (n : Node) (a : Anns) (dir : Dir
     (nullPure part n a dir ty false).nullable = (nullPure part n { a with allowNone := none } dir ty false).nullable ∧
     (nullPure part n a dir ty false).optional = (nullPure part n { a with allowNone := none } dir ty false).optional := by
   obtain ⟨o, ho⟩ := Option.isSome_iff_exists.mp h
-  simp [nullPure, ho, hd]
+  simp [nullPure, ho, hd, notNullableAnn, notOptionalAnn]
 
-/-- with a positive pointer test and no `(not ...)`, a written `nullable` is not vetoed by a stale
+/-- with a positive pointer test and no `(not nullable)`, a written `nullable` is not vetoed by a stale
     `not_nullable`: `(nullable)` clears it; otherwise it is the node's own flag -/
-theorem nullPure_true_notNullable (part : Str) (n : Node) (a : Anns) (dir : Dir) (ty : Ty) (hn : a.not_ = none)
+theorem nullPure_true_notNullable (part : Str) (n : Node) (a : Anns) (dir : Dir) (ty : Ty) (hn : notNullableAnn a = false)
     (h : a.nullable.isSome = true ∨ (a.allowNone.isSome = true ∧ (dir == .out && !n.isRet) = false)) :
     (nullPure part n a dir ty true).notNullable = (if a.nullable.isSome then false else n.notNullable) := by
   cases hnu : a.nullable <;> simp [nullPure, hn, hnu]
@@ -349,6 +362,34 @@ theorem refAttr_keys {key : String} {ref : Option Str} {r : List (Str × Str)} (
   rcases refAttr_ok h with ⟨_, rfl⟩ | ⟨n, k, _, _, rfl⟩
   · simp
   · simp
+
+theorem written_lacks_optional (hl : paramAttrs c p = .ok l) (h : p.optional = false) :
+    ∀ v, (G "optional", v) ∉ l := by
+  obtain ⟨cl, de, hcl, hde, rfl⟩ := paramAttrs_ok hl
+  intro v hm
+  have k1 := refAttr_keys hcl
+  have k2 := refAttr_keys hde
+  simp only [List.mem_append, List.mem_cons, List.not_mem_nil, or_false] at hm
+  rcases hm with ((((((((hm | hm) | hm) | hm) | hm) | hm) | hm) | hm) | hm)
+  · exact absurd (show G "optional" = G "name" from congrArg Prod.fst hm) (by decide)
+  · simp only [dirAttrs] at hm
+    split at hm <;> simp at hm
+    rcases hm with hm | hm
+    · exact absurd hm.1 (by decide)
+    · exact absurd hm.1 (by decide)
+  · simp only [transferAttrs] at hm; split at hm <;> simp at hm; exact absurd hm.1 (by decide)
+  · simp only [nullAttrs, b2l] at hm
+    split at hm
+    · simp at hm
+      rcases hm with hm | hm
+      · exact absurd hm.1 (by decide)
+      · exact absurd hm.2.1 (by decide)
+    · simp at hm
+  · simp [optAttrs, h] at hm
+  · simp only [scopeAttrs] at hm; split at hm <;> simp at hm; exact absurd hm.1 (by decide)
+  · exact absurd (show G "optional" = G "closure" from k1 _ hm) (by decide)
+  · exact absurd (show G "optional" = G "destroy" from k2 _ hm) (by decide)
+  · simp only [b2l] at hm; split at hm <;> simp at hm; exact absurd hm.1 (by decide)
 
 theorem written_lacks_direction (hl : paramAttrs c p = .ok l) (h : p.dir = .in_ ∨ p.dir = .unset) :
     ∀ v, (G "direction", v) ∉ l := by
